@@ -50,7 +50,7 @@ def det3(name, *roots):
 
 
 DET1_ACCEPTED = {
-    ("parser_utils._join_non_none", "iter:all_keys"):
+    ("parser_utils._join_non_none", "insert-into-param:primacy"):
         "inserts into a parameter dict (level L2) whose key order is unobservable: DET-1b checks that nothing iterates / serialises such dicts",
 }
 
